@@ -165,6 +165,15 @@ void Desc::normalise() {
   }
 }
 
+std::string depSpelling(const Cmd& c, const std::string& path) {
+  if (c.workdir.empty() || c.style == "dependency-info" || path.empty() || path[0] == '/') return path;
+  if (path.compare(0, c.workdir.size() + 1, c.workdir + "/") == 0) return path.substr(c.workdir.size() + 1);
+  std::string up;
+  for (size_t i = 0; i <= c.workdir.size(); i++)
+    if (i == c.workdir.size() || c.workdir[i] == '/') up += "../";
+  return up + path;
+}
+
 const Cmd* Desc::producer(const std::string& path) const {
   for (auto& c : cmds)
     for (auto& o : c.outputs)
